@@ -94,6 +94,7 @@ func condFormatsAgree(w *World) func() (bool, string) {
 
 // C09: character maps.
 func propC09(w *World, r *Report) {
+	defer RunSearchMonotone(w, r, "/cmap")
 	e := NewEffects(w)
 	runDet(w, r, e, "C09")
 	r.Rule("tabformats: the subtable formats cmap.Decode accepts are all keys of cmap.decoders, which is never modified (Get/GetNoLang never call a nil function) || bestorder: GetBest tries full-Unicode subtables before BMP subtables before legacy ones, in list order, returning the first that decodes || bigendian, sortfirst on package cmap || panicreach for the cmap entry points")
@@ -112,6 +113,7 @@ func propC09(w *World, r *Report) {
 	checkPerCode(w, r)
 	checkExplicitDelta(w, r)
 	checkSegmentSkip(w, r)
+	checkSegDelta(w, r)
 	checkPlatformRange(w, r)
 	r.Floor("segmentskip", 1)
 	checkOverlapStrict(w, r, newBoundsRun(w))
